@@ -1,5 +1,5 @@
 (** * C06 proofs: transforms and their stored inverses, on the real instance. *)
-From Coq Require Import ZArith Reals Lra Bool List Psatz.
+From Coq Require Import ZArith Reals Lra Bool List Psatz Nsatz.
 From G3 Require Import Model.Num Model.Base Model.Vec Model.BBox Model.Transform Theory.RInst.
 Import ListNotations.
 Local Open Scope R_scope.
@@ -157,11 +157,11 @@ Proof. rewrite changes_hands_spec, det_scale. reflexivity. Qed.
 
 (** ** rotations are rigid and counter-clockwise *)
 Lemma rotate_x_rigid (s c : R) (u v : V) : s * s + c * c = 1 -> vdot (tr_vec (tr_rotate_x_sc s c) u) (tr_vec (tr_rotate_x_sc s c) v) = vdot u v.
-Proof. intros H. destruct u as [ux uy uz], v as [wx wy wz]. unf. nra. Qed.
+Proof. intros H. destruct u as [ux uy uz], v as [wx wy wz]. unf. nsatz. Qed.
 Lemma rotate_y_rigid (s c : R) (u v : V) : s * s + c * c = 1 -> vdot (tr_vec (tr_rotate_y_sc s c) u) (tr_vec (tr_rotate_y_sc s c) v) = vdot u v.
-Proof. intros H. destruct u as [ux uy uz], v as [wx wy wz]. unf. nra. Qed.
+Proof. intros H. destruct u as [ux uy uz], v as [wx wy wz]. unf. nsatz. Qed.
 Lemma rotate_z_rigid (s c : R) (u v : V) : s * s + c * c = 1 -> vdot (tr_vec (tr_rotate_z_sc s c) u) (tr_vec (tr_rotate_z_sc s c) v) = vdot u v.
-Proof. intros H. destruct u as [ux uy uz], v as [wx wy wz]. unf. nra. Qed.
+Proof. intros H. destruct u as [ux uy uz], v as [wx wy wz]. unf. nsatz. Qed.
 (** counter-clockwise about the axis for a positive angle: y-hat -> (0, cos, sin) about x; z-hat -> (sin,0,cos) about y; x-hat -> (cos, sin, 0) about z; the axis is fixed *)
 Lemma rotate_x_ccw s c : tr_vec (tr_rotate_x_sc s c) (mkV3 0 1 0) = mkV3 0 c s /\ tr_vec (tr_rotate_x_sc s c) (mkV3 1 0 0) = mkV3 1 0 0.
 Proof. split; unf; apply v3_eq; cbn [vx vy vz]; ring. Qed.
@@ -169,3 +169,136 @@ Lemma rotate_y_ccw s c : tr_vec (tr_rotate_y_sc s c) (mkV3 0 0 1) = mkV3 s 0 c /
 Proof. split; unf; apply v3_eq; cbn [vx vy vz]; ring. Qed.
 Lemma rotate_z_ccw s c : tr_vec (tr_rotate_z_sc s c) (mkV3 1 0 0) = mkV3 c s 0 /\ tr_vec (tr_rotate_z_sc s c) (mkV3 0 0 1) = mkV3 0 0 1.
 Proof. split; unf; apply v3_eq; cbn [vx vy vz]; ring. Qed.
+
+(** ** rays: direction comes back exactly; the origin comes back on the same line, nudged forward *)
+Lemma neps_pos : 0 < @neps R _.
+Proof. rnum. apply Rinv_0_lt_compat, IZR_lt. reflexivity. Qed.
+Lemma neps_small : @neps R _ < / 1000.
+Proof. rnum. apply Rinv_lt_contravar; [apply Rmult_lt_0_compat; [lra | apply IZR_lt; reflexivity] | apply IZR_lt; reflexivity]. Qed.
+Lemma gamma_pos n : (0 < n <= 100)%Z -> 0 < @ngamma R _ n.
+Proof.
+  intros Hn. unfold ngamma. rnum. pose proof neps_pos as H1. pose proof neps_small as H2. rnum.
+  assert (Hn1 : 1 <= IZR n) by (apply IZR_le; lia). assert (Hn2 : IZR n <= 100) by (apply IZR_le; lia).
+  apply Rdiv_lt_0_compat; nra.
+Qed.
+
+Lemma pt_affine_comb (m : M) (p v : V) (t : R) : affine m ->
+  mul4x4point m (vadd p (vscale v t)) = vadd (mul4x4point m p) (vscale (mul4x4vec m v) t).
+Proof. destruct m, p as [px py pz], v as [wx wy wz]. unf. intros (?&?&?&?); subst. apply v3_eq; cbn [vx vy vz]; field; lra. Qed.
+
+Lemma abs_err_nonneg (m : M) (x y z g : R) : 0 <= g ->
+  let e := vscale (mul4x4_abs m x y z) g in 0 <= vx e /\ 0 <= vy e /\ 0 <= vz e.
+Proof.
+  intros Hg. unfold mul4x4_abs, vscale. cbn [vx vy vz]. rnum.
+  repeat split; apply Rmult_le_pos; try assumption;
+    repeat apply Rplus_le_le_0_compat; apply Rabs_pos.
+Qed.
+
+Lemma nudge_spec (o d e : V) : 0 <= vx e -> 0 <= vy e -> 0 <= vz e ->
+  exists dt, 0 <= dt /\ nudge o d e = vadd o (vscale d dt).
+Proof.
+  intros Hx Hy Hz. unfold nudge. rnum. destruct (Rltb 0 (vlen2 d)) eqn:E.
+  - apply Rltb_true in E. eexists; split; [|reflexivity].
+    apply Rmult_le_pos; [|left; apply Rinv_0_lt_compat; exact E].
+    unfold vdot, vabs. cbn [vx vy vz]. rnum.
+    repeat apply Rplus_le_le_0_compat; apply Rmult_le_pos; try assumption; apply Rabs_pos.
+  - exists 0. split; [lra|]. destruct o as [ox oy oz], d as [dx dy dz]. unfold vadd, vscale. cbn [vx vy vz]. rnum.
+    apply v3_eq; cbn [vx vy vz]; ring.
+Qed.
+
+Lemma ray_by_spec (m : M) (r : Ray R) : affine m ->
+  let '(r', oe, de) := ray_by m r in
+  rdir r' = mul4x4vec m (rdir r) /\
+  exists dt, 0 <= dt /\ rorigin r' = vadd (mul4x4point m (rorigin r)) (vscale (mul4x4vec m (rdir r)) dt).
+Proof.
+  intros Ha. unfold ray_by, pt_with_error, vec_with_error. cbn [rdir rorigin]. split; [reflexivity|].
+  pose proof (gamma_pos 3 ltac:(lia)) as Hg.
+  destruct (abs_err_nonneg m (vx (rorigin r)) (vy (rorigin r)) (vz (rorigin r)) (ngamma 3) (Rlt_le _ _ Hg)) as (E1 & E2 & E3).
+  apply nudge_spec; assumption.
+Qed.
+
+Lemma vadd_assoc_scale (o d : V) (a b : R) : vadd (vadd o (vscale d a)) (vscale d b) = vadd o (vscale d (a + b)).
+Proof. destruct o as [ox oy oz], d as [dx dy dz]. unfold vadd, vscale. cbn [vx vy vz]. rnum. apply v3_eq; cbn [vx vy vz]; ring. Qed.
+
+Lemma ray_round_trip (t : T) (r : Ray R) : Inv t ->
+  let '(r1, _, _) := tr_ray t r in
+  let '(r2, _, _) := tr_inv_ray t r1 in
+  rdir r2 = rdir r /\ exists dt, 0 <= dt /\ rorigin r2 = vadd (rorigin r) (vscale (rdir r) dt).
+Proof.
+  intros Hi. pose proof Hi as (A1 & A2 & A3 & A4). unfold tr_ray, tr_inv_ray.
+  pose proof (ray_by_spec (elements t) r A3) as H1. destruct (ray_by (elements t) r) as [[r1 oe1] de1].
+  destruct H1 as (D1 & dt1 & P1 & O1).
+  pose proof (ray_by_spec (inv_elements t) r1 A4) as H2. destruct (ray_by (inv_elements t) r1) as [[r2 oe2] de2].
+  destruct H2 as (D2 & dt2 & P2 & O2).
+  split.
+  - rewrite D2, D1. apply (inv_vec_vec t (rdir r) Hi).
+  - exists (dt1 + dt2). split; [lra|].
+    rewrite O2, D1, O1, pt_affine_comb by assumption.
+    change (mul4x4point (inv_elements t) (mul4x4point (elements t) (rorigin r))) with (tr_inv_pt t (tr_pt t (rorigin r))).
+    change (mul4x4vec (inv_elements t) (mul4x4vec (elements t) (rdir r))) with (tr_inv_vec t (tr_vec t (rdir r))).
+    rewrite inv_pt_pt, inv_vec_vec by assumption. apply vadd_assoc_scale.
+Qed.
+
+(** elementary transforms and their chains, as the property quantifies over them *)
+Inductive elem : Type :=
+| ETranslate (x y z : R) | EScale (x y z : R) | ERotX (deg : R) | ERotY (deg : R) | ERotZ (deg : R).
+Definition elem_ok (e : elem) : Prop :=
+  match e with EScale x y z => x <> 0 /\ y <> 0 /\ z <> 0 | _ => True end.
+Definition elem_tr (e : elem) : T :=
+  match e with
+  | ETranslate x y z => tr_translate x y z | EScale x y z => tr_scale x y z
+  | ERotX d => tr_rotate_x d | ERotY d => tr_rotate_y d | ERotZ d => tr_rotate_z d
+  end.
+Lemma Inv_elem e : elem_ok e -> Inv (elem_tr e).
+Proof.
+  destruct e; cbn [elem_ok elem_tr]; intros H;
+    [apply Inv_translate | destruct H as (?&?&?); apply Inv_scale; assumption | apply Inv_rotate_x | apply Inv_rotate_y | apply Inv_rotate_z].
+Qed.
+Lemma Inv_elem_chain (l : list elem) : Forall elem_ok l -> Inv (chain (map elem_tr l)).
+Proof.
+  intros H. apply Inv_chain. induction H as [|e l He Hl IH]; cbn [map]; constructor; [apply Inv_elem; exact He | exact IH].
+Qed.
+(** the chain acts as the composition, first element outermost *)
+Fixpoint act (l : list T) (p : V) : V := match l with [] => p | t :: l' => tr_pt t (act l' p) end.
+Lemma fold_acts (l : list T) : forall t p, Inv t -> Forall Inv l ->
+  tr_pt (fold_left tr_mul_assign l t) p = tr_pt t (act l p).
+Proof.
+  induction l as [|b l IH]; intros t p Ht Hl; cbn [fold_left act]; [reflexivity|].
+  inversion Hl as [|? ? Hb Hl']; subst.
+  rewrite IH by (try apply Inv_mul_assign; assumption). apply mul_assign_acts_pt; assumption.
+Qed.
+Lemma chain_acts (l : list T) (p : V) : Forall Inv l -> tr_pt (chain l) p = act l p.
+Proof. intros H. unfold chain. rewrite fold_acts by (try apply Inv_new; assumption). unfold tr_pt, tr_new. cbn [elements]. apply pt_id. Qed.
+
+Lemma rotations_rigid (d : R) (u v : V) :
+  vdot (tr_vec (tr_rotate_x d) u) (tr_vec (tr_rotate_x d) v) = vdot u v /\
+  vdot (tr_vec (tr_rotate_y d) u) (tr_vec (tr_rotate_y d) v) = vdot u v /\
+  vdot (tr_vec (tr_rotate_z d) u) (tr_vec (tr_rotate_z d) v) = vdot u v.
+Proof.
+  unfold tr_rotate_x, tr_rotate_y, tr_rotate_z. rnum.
+  repeat split; [apply rotate_x_rigid | apply rotate_y_rigid | apply rotate_z_rigid]; apply sc1.
+Qed.
+Lemma rotations_ccw (d : R) : let r := to_radians d in
+  tr_vec (tr_rotate_x d) (mkV3 0 1 0) = mkV3 0 (cos r) (sin r) /\
+  tr_vec (tr_rotate_y d) (mkV3 0 0 1) = mkV3 (sin r) 0 (cos r) /\
+  tr_vec (tr_rotate_z d) (mkV3 1 0 0) = mkV3 (cos r) (sin r) 0.
+Proof.
+  unfold tr_rotate_x, tr_rotate_y, tr_rotate_z. rnum. cbv zeta.
+  repeat split; [apply rotate_x_ccw | apply rotate_y_ccw | apply rotate_z_ccw].
+Qed.
+Lemma rigid_keep_hands (x y z d : R) :
+  tr_changes_hands (tr_translate x y z) = false /\ tr_changes_hands (tr_rotate_x d) = false /\
+  tr_changes_hands (tr_rotate_y d) = false /\ tr_changes_hands (tr_rotate_z d) = false.
+Proof.
+  unfold tr_changes_hands, tr_rotate_x, tr_rotate_y, tr_rotate_z. rnum.
+  rewrite det_translate, det_rotate_x_sc, det_rotate_y_sc, det_rotate_z_sc by apply sc1.
+  repeat split; apply Rltb_false; lra.
+Qed.
+Lemma C06_nonvacuous_proof : Forall elem_ok [ETranslate 1 2 3; EScale 2 (-1) (1/2); ERotZ 90].
+Proof. repeat constructor; cbn [elem_ok]; lra. Qed.
+From G3 Require Import Model.Pinned.
+Lemma pinned_mul_assign_breaks_Inv : exists a b : T, Inv a /\ Inv b /\ ~ Inv (tr_mul_assign_pinned a b).
+Proof.
+  exists (tr_translate 1 0 0), (tr_rotate_z_sc 1 0). split; [apply Inv_translate|]. split; [apply Inv_rotate_z_sc; lra|].
+  intros (H & _). apply (f_equal m13) in H. revert H. unfold tr_mul_assign_pinned. unf. lra.
+Qed.
